@@ -28,6 +28,13 @@ def run(ctx):
         more = ','.join('push%d' % i for i in range(40, 40 + cap))
         jobs.append('nkb%d/-/I;;%s,%s,%s,%s,%s' % (cap, fill, drain, more, drain, drain))
         jobs.append('nkb%d/-/I;%s;pop,push50,pop;pop,push51' % (cap, ','.join('push%d' % i for i in range(1, cap))))
+    # elements that own something (Tracked / unique_ptr<Tracked>; life-cycle calls are scheduling points): a slot handed back to the producers before the
+    # popper is done with the object in it lets a push build its element under the pending destructor - a popped element that has lost its payload
+    # (seeded change c05_6 = c07_5: nikolaev_bounded_queue::do_pop returns the slot index before it destroys the moved-from element)
+    for c, cap in (('nkb2/-/T', 2), ('nkb2/-/U', 2), ('nkb1/-/U', 1), ('vyu2/-/T', 2)):
+        fill = ','.join('push%d' % i for i in range(1, cap + 1))
+        jobs.append('%s;%s;pop;push%d' % (c, fill, cap + 1))
+        jobs.append('%s;%s;pop,pop;push%d,push%d' % (c, fill, cap + 1, cap + 2))
     run_queues(ctx, jobs, pb=2 if q else 3, max_exec=600 if q else 30000)
     if not q:
         run_queues(ctx, jobs, pb=5, max_exec=0, mode='random', runs=1500, tagx='r')
